@@ -14,7 +14,7 @@ func init() {
 	register(&propertyDef{
 		id:    "C02",
 		title: "steps start only after their dependencies, with the data those produced",
-		rules: []ruleFunc{c02R1, c02R2, c02R3, c02R4, c02R5, c02R6, c02R7, c02R8, c02R9},
+		rules: []ruleFunc{c02R1, c02R2, c02R3, c02R4, c02R5, c02R6, c02R7, c02R8, c02R9, c02R10},
 		decided: "every expression kind that is resolved at run time is also wired into the DAG at prepare time (walker agreement, R1); every dependency of an expression, every lifecycle ordering and every one-of option becomes a DAG connection on every loop iteration (R2); " +
 			"every stage input field and every workflow output is walked for dependencies and is what the node later evaluates (R3); resolution, data publication and notification happen in that order in one critical section (R4); " +
 			"all DAG/data-model helpers run under the run lock (R5); the step receives the resolved, validated data of its own node (R6). The tree walkers descend into every element of maps and lists (R7). Shared: the run path writes nothing into prepared objects shared by all runs (R8 = C14.R1); starting.started is published only after the plugin executor was launched (R9 = C12.R13).",
@@ -455,9 +455,45 @@ func c02R4(c *Ctx) {
 			outID, outVal = fn.Params[3], fn.Params[4]
 		}
 	}
+	isOutID, isOutVal := isValue(outID), isValue(outVal)
 	if outID == nil || outVal == nil {
-		c.unresolved("parameters previousStageOutputID/previousStageOutput of onStageComplete")
-		return
+		// a parameter object: the struct-typed parameter with exactly one *any field (the output) directly preceded by
+		// a *string field (its id), as in the positional form
+		found := false
+		for _, p := range fn.Params[1:] {
+			st := structOf(p.Type())
+			if st == nil {
+				continue
+			}
+			valIdx, nVal := -1, 0
+			for i := 0; i < st.NumFields(); i++ {
+				if t := st.Field(i).Type().String(); t == "*any" || t == "*interface{}" {
+					valIdx = i
+					nVal++
+				}
+			}
+			if nVal != 1 || valIdx < 1 || st.Field(valIdx-1).Type().String() != "*string" {
+				continue
+			}
+			found = true
+			fieldOf := func(idx int) func(ssa.Value) bool {
+				return func(v ssa.Value) bool {
+					switch x := v.(type) {
+					case *ssa.Field:
+						return structOf(x.X.Type()) == st && x.Field == idx
+					case *ssa.UnOp:
+						fa, ok := x.X.(*ssa.FieldAddr)
+						return ok && x.Op == token.MUL && structOf(fa.X.Type()) == st && fa.Field == idx
+					}
+					return false
+				}
+			}
+			isOutID, isOutVal = fieldOf(valIdx-1), fieldOf(valIdx)
+		}
+		if !found {
+			c.unresolved("parameters previousStageOutputID/previousStageOutput of onStageComplete")
+			return
+		}
 	}
 	n := 0
 	helpers := c.singleSiteHelpers(fn) // extracted helpers (one call site each): their stores count as onStageComplete's
@@ -469,7 +505,7 @@ func c02R4(c *Ctx) {
 		// the output node's resolve: guarded by previousStageOutputID != nil
 		g := guardedBy(r.I, true, func(cond ssa.Value) bool {
 			b, ok := cond.(*ssa.BinOp)
-			return ok && b.Op == token.NEQ && derivesFrom(b.X, isValue(outID)) && isNilConst(b.Y)
+			return ok && b.Op == token.NEQ && derivesFrom(b.X, isOutID) && isNilConst(b.Y)
 		})
 		if g == nil {
 			return
@@ -477,7 +513,7 @@ func c02R4(c *Ctx) {
 		n++
 		isStoreDirect := func(in ssa.Instruction) bool {
 			mu, ok := in.(*ssa.MapUpdate)
-			return ok && derivesFrom(mu.Value, isValue(outVal))
+			return ok && derivesFrom(mu.Value, isOutVal)
 		}
 		publishing := map[*ssa.Function]bool{}
 		for _, h := range helpers {
@@ -529,6 +565,45 @@ func c02R4(c *Ctx) {
 	}
 	if (stepIDp == nil || prevStage == nil) && len(fn.Params) == 6 && fn.Params[1].Type().String() == "string" && fn.Params[2].Type().String() == "*string" {
 		stepIDp, prevStage = fn.Params[1], fn.Params[2]
+	}
+	isStepID, isPrevStage := isValue(stepIDp), isValue(prevStage)
+	if stepIDp == nil || prevStage == nil {
+		// a parameter object: the struct-typed parameter whose first string field is the step and first *string field the stage
+		for _, p := range fn.Params[1:] {
+			st := structOf(p.Type())
+			if st == nil {
+				continue
+			}
+			sIdx, pIdx := -1, -1
+			for i := 0; i < st.NumFields(); i++ {
+				switch st.Field(i).Type().String() {
+				case "string":
+					if sIdx < 0 {
+						sIdx = i
+					}
+				case "*string":
+					if pIdx < 0 {
+						pIdx = i
+					}
+				}
+			}
+			if sIdx < 0 || pIdx < 0 {
+				continue
+			}
+			fieldOf := func(idx int) func(ssa.Value) bool {
+				return func(v ssa.Value) bool {
+					switch x := v.(type) {
+					case *ssa.Field:
+						return structOf(x.X.Type()) == st && x.Field == idx
+					case *ssa.UnOp:
+						fa, ok := x.X.(*ssa.FieldAddr)
+						return ok && x.Op == token.MUL && structOf(fa.X.Type()) == st && fa.Field == idx
+					}
+					return false
+				}
+			}
+			isStepID, isPrevStage = fieldOf(sIdx), fieldOf(pIdx)
+		}
 	}
 	var keyPath func(m ssa.Value) []ssa.Value
 	keyPath = func(m ssa.Value) []ssa.Value {
@@ -602,14 +677,14 @@ func c02R4(c *Ctx) {
 		nPub++
 		full := append(append([]ssa.Value{}, keys...), mu.Key)
 		key := fmt.Sprintf("publication-path@%s#%d", c.fnName(fn), nPub)
-		okPrefix := len(full) >= 3 && isConstStr(full[0], "steps") && derivesFrom(full[1], isValue(stepIDp)) && derivesFrom(full[2], isValue(prevStage))
+		okPrefix := len(full) >= 3 && isConstStr(full[0], "steps") && derivesFrom(full[1], isStepID) && derivesFrom(full[2], isPrevStage)
 		switch {
 		case okPrefix && len(full) == 3:
 			// resets this stage's entry
 			_, fresh := mu.Value.(*ssa.MakeInterface)
 			c.verdict(fresh, rule, key, c.instrPos(mu), "resets only data[steps][step][stage]", "the stage entry is overwritten with a non-fresh value")
 		case okPrefix && len(full) == 4:
-			c.verdict(derivesFrom(full[3], isValue(outID)) && derivesFrom(mu.Value, isValue(outVal)), rule, key, c.instrPos(mu), "stores the output at data[steps][step][stage][output]", "the value stored at depth 4 of the data model is not the produced output under its output id")
+			c.verdict(derivesFrom(full[3], isOutID) && derivesFrom(mu.Value, isOutVal), rule, key, c.instrPos(mu), "stores the output at data[steps][step][stage][output]", "the value stored at depth 4 of the data model is not the produced output under its output id")
 		default:
 			c.bad(rule, key, c.instrPos(mu), fmt.Sprintf("onStageComplete writes the data model at depth %d / under the wrong keys: expressions read $.steps.<step>.<stage>.<output>, so the produced value must be stored exactly there and nothing above that level may be replaced (a replaced step entry loses the outputs of the step's earlier stages)", len(full)))
 		}
